@@ -17,6 +17,7 @@ broadcast use {axiom_string_ext, axiom_str_ext, axiom_str_of, axiom_vec_ext, axi
 //@include spec/subst_formula_lemmas.rs
 //@include spec/subst_loop_lemmas.rs
 //@include spec/induction_lemmas.rs
+//@include spec/definition_lemmas.rs
 //@include units/unbox.inc
 
 pub mod fol { pub use super::*; }
@@ -50,8 +51,50 @@ impl Formula {
 //@end
 }
 
+impl<D, W> WithWarnings<D, W> {
+//@fn src/convenience/with_warnings/mod.rs :: impl<D, W> WithWarnings<D, W> :: fn preface_warnings
+//@ .ret r
+//@ .spec
+//@     ensures r.data == self.data,
+//@end
+}
+
+impl Variable {
+// D19: `impl TryFrom<GeneralTerm> for Variable` verified as an inherent method
+//@fn src/syntax_tree/fol/sigma_0.rs :: impl TryFrom<GeneralTerm> for Variable :: fn try_from
+//@ .assoc Error=GeneralTerm
+//@ .ret r
+//@ .spec
+//@     ensures r is Ok == term_var(term) is Some, r is Ok ==> Some(r->Ok_0) == term_var(term), r is Err ==> r->Err_0 == term,
+//@end
+}
+
 pub trait CheckInternal: Sized {
     fn inductive_lemma(self) -> Result<(fol::Formula, fol::Formula), ProofOutlineWarning, ProofOutlineError>;
+}
+
+impl Formula {
+// D19: the trait method `CheckInternal::definition` verified as an inherent method (same body)
+//@fn src/verifying/outline/mod.rs :: impl CheckInternal for fol::Formula :: fn definition
+//@ .ret res
+//@ .attr #[verifier::loop_isolation(false)]
+//@ .spec
+//@     ensures
+//@         // C13: an accepted definition has the definitional form and side conditions (hence is conservative: lemma_definition_conservative)
+//@         res matches Ok(ww) ==> def_ok(*self, taken_predicates@, ww.data),
+//@ .loop 1 as it
+//@     invariant
+//@         it.seq().len() == a.terms@.len(), forall|j: int| 0 <= j < a.terms@.len() ==> *it.seq()[j] == a.terms@[j],
+//@         forall|j: int| 0 <= j < it.index@ ==> (#[trigger] term_var(a.terms@[j])) is Some && terms_as_vars@.contains(term_var(a.terms@[j])->Some_0),
+//@         forall|x: Variable| terms_as_vars@.contains(x) ==> exists|j: int| 0 <= j < a.terms@.len() && #[trigger] term_var(a.terms@[j]) == Some(x),
+//@ .hint before "terms_as_vars.insert(v);"
+//@     proof {
+//@         assert forall|x: Variable| #[trigger] seq_insert(terms_as_vars@, v).contains(x) == (terms_as_vars@.contains(x) || x == v) by { lemma_seq_insert_contains(terms_as_vars@, v, x); }
+//@         assert(term_var(a.terms@[it.index@ as int]) == Some(v));
+//@     }
+//@ .hint before "Ok(WithWarnings::flawless(predicate).preface_warnings(warnings))"
+//@     proof { lemma_def_ok(*self, taken_predicates@, predicate, uniques@, terms_as_vars@); }
+//@end
 }
 
 impl CheckInternal for fol::Formula {
